@@ -99,14 +99,15 @@ def _classify(res, ob):
         return out
     real = [c for c in failed if c.get("category") not in ("unwind",) and "unwinding assertion" not in (c.get("description") or "")]
     unsupported = [c for c in real if "is not currently supported by Kani" in (c.get("description") or "")
-                   or (c.get("category") in ("unsupported_construct", "missing_definition"))]
+                   or (c.get("category") in ("unsupported_construct", "missing_definition"))
+                   or "verif-model-capacity" in (c.get("description") or "")]
     real = [c for c in real if c not in unsupported]
     if real:
         out["verdict"] = "violation"
         out["reason"] = "; ".join("%s @ %s" % (c.get("description"), (c.get("location") or {}).get("line")) for c in real[:4])
     elif unsupported:
         out["verdict"] = "undecided"
-        out["reason"] = "unsupported construct reached: " + str(unsupported[0].get("description"))
+        out["reason"] = "unsupported construct / model limit reached: " + str(unsupported[0].get("description"))
     elif failed:
         out["verdict"] = "undecided"
         out["reason"] = "unwinding bound too small (only unwinding assertions failed)"
